@@ -44,7 +44,7 @@ func Run(tier string, seed uint64, modelPath, repo string, out *res.Result) erro
 	r := rng.New(seed)
 	nLinks, nBk, nDocs := 4000, 6000, 1600
 	if tier == "thorough" {
-		nLinks, nBk, nDocs = 150000, 250000, 100000
+		nLinks, nBk, nDocs = 150000, 250000, 20000
 	}
 	if tier == "smoke" { // builder's iteration aid
 		nLinks, nBk, nDocs = 200, 200, 500
@@ -943,5 +943,12 @@ func Debug(html string, zoom float64, repo string) string {
 	if !oc.OK() || rerr != nil {
 		return fmt.Sprint("CRASH ", oc.Panic, " ", oc.Site, " ", oc.Timeout, " ", rerr, "\n", oc.Stack)
 	}
-	return rec.Trace() + fmt.Sprintln("non-finite:", rec.NonFinite) + fmt.Sprintln("monitor input:", rec.Encode().String())
+	var names []string
+	for _, pa := range rec.Anchors {
+		for _, a := range pa {
+			names = append(names, a.Name)
+		}
+		names = append(names, "|")
+	}
+	return rec.Trace() + fmt.Sprintln("non-finite:", rec.NonFinite) + fmt.Sprintln("anchor order:", names) + fmt.Sprintln("monitor input:", rec.Encode().String())
 }
